@@ -7,7 +7,8 @@ import decsuite as ds
 import msggen
 
 THEOREMS = ["C16.c16_valid_iff", "decode_ok", "C04.c04_prim_reject", "C04.c04_prim_accept",
-            "decode_sound", "AcceptIff.type_accept_iff", "AcceptIff.command_accept_iff", "AcceptIff.response_accept_iff"]
+            "decode_sound", "AcceptIff.type_accept_iff", "AcceptIff.command_accept_iff", "AcceptIff.response_accept_iff",
+            "runWalker_ve", "C04.c04_shown_fields_valid", "C04.c04_prim_error_is_invalid"]
 
 
 def run(ctx, replay_case):
